@@ -471,6 +471,30 @@ def statusline(R, RID='C19.gate'):
                         st.append(d)
     need(len(st) == 1, 'Response.__init__: status_code = int(...) not found')
     n = st[0]
+    # the status line is the FIRST line of the block: the line variable the code is parsed from has one definition,
+    # `next(<iterator over the lines>)`, outside any loop (skipping blank / junk lines in front lets a reply that does not start
+    # with a status line pass for a 200)
+    tok_src = None
+    for x in walk_no_nested(n.ast.value):
+        if isinstance(x, ast.Name) and isinstance(x.ctx, ast.Load) and x.id not in ('int', 'next'):
+            tok_src = x
+    lv_defs = []
+    if tok_src is not None:
+        # tokens = iter(status_line.split(None, 2)): follow back to the line variable
+        o_, on_ = rd.origin(n, tok_src)
+        names_ = [y for y in walk_no_nested(o_) if isinstance(y, ast.Name) and isinstance(y.ctx, ast.Load)
+                  and y.id not in ('iter', 'int', 'next')]
+        for y in names_:
+            ds_ = rd.defs_at(on_, y.id)
+            if any(isinstance(rd.value_of_def(d_, y.id), ast.Call) and U(rd.value_of_def(d_, y.id).func) == 'next' for d_ in ds_ if d_ is not g.entry):
+                lv_defs = [(y.id, ds_)]
+    for (nm_, ds_) in lv_defs:
+        alld = [d_ for d_ in g.live_nodes() if nm_ in defs_of_node(d_)]
+        inloop = [d_ for d_ in alld if any(fr.kind == 'loop' for fr in d_.frames)]
+        R.ob(RID, 'the status line is the first line of the reply', len(alld) == 1 and not inloop,
+             '`%s` is bound at %d places (%s): lines in front of the status line are skipped, so a reply that does not begin with '
+             'an HTTP status line can still be read as `200`' % (nm_, len(alld), [d_.text()[:40] for d_ in alld][:3]),
+             func=f, node=(alld[-1].ast if alld else None), construct='status line definitions')
 
     def decoded(node, e, depth=6, seen=None):
         seen = seen if seen is not None else set()
